@@ -191,6 +191,8 @@ def install(it):
     def _iter(it, a, kw):
         if len(a) == 2:
             return SentinelIter(a[0], a[1])
+        if isinstance(a[0], I.GeneratorVal):
+            return a[0]
         return HostIter(it.iterate(a[0]))
 
     @builtin('next')
@@ -205,6 +207,16 @@ def install(it):
             it.throw(StopIteration)
         if isinstance(v, Obj):
             return it.call(it.getattr(v, '__next__'), [], {})
+        if isinstance(v, I.GeneratorVal):
+            from . import gen
+            if len(a) > 1:
+                try:
+                    return gen.runner_of(it, v).next()
+                except PyRaise as e:
+                    if any(c.host is StopIteration for c in e.exc.cls.mro):
+                        return a[1]
+                    raise
+            return gen.runner_of(it, v).next()
         raise Unsupported('next() on %r' % (v,))
 
     @builtin('repr')
